@@ -9,7 +9,7 @@ from collections import OrderedDict
 
 NoneStr = "```(None)```"  # == cdd.shared.ast_utils.NoneStr (asserted in oracle.selfcheck)
 
-NAMES = ["alpha", "beta", "gamma", "delta", "epsilon"]
+NAMES = ["alpha", "beta", "gamma", "delta", "epsilon", "zeta", "eta", "theta"]
 # name sets whose members contain one another (an earlier name inside a later one, and the other way round): text-level matching of names
 ALT_NAMES = [["rate", "learning_rate", "rate_decay"], ["batch_size", "size", "s"], ["größe", "température", "naïve_λ"]]
 # a name the library takes for **kwargs, in a position that is not the last (used by C04 only: every other check would only re-report the convention)
@@ -172,7 +172,7 @@ def mk_ir(params, ret=None, doc="Summary line.", name=None):
     }
 
 
-def ir_space(k1_alpha, kn_alpha, max_k, returns_1=RETURNS, returns_n=RETURNS[:2], headers=HEADERS[:1], names1=("alpha",), alt_names=ALT_NAMES):
+def ir_space(k1_alpha, kn_alpha, max_k, returns_1=RETURNS, returns_n=RETURNS[:2], headers=HEADERS[:1], names1=("alpha",), alt_names=ALT_NAMES, wide=True):
     """
     I(1) = every kind in k1_alpha x returns_1 x headers x names1 ; I(k), 2<=k<=max_k = all ordered k-tuples over kn_alpha x returns_n.
     Yields (case_key, ir) where case_key is a JSON-able description: {"kinds": [...], "ret": .., "hdr": .., "names": [...]}
@@ -196,6 +196,34 @@ def ir_space(k1_alpha, kn_alpha, max_k, returns_1=RETURNS, returns_n=RETURNS[:2]
                     dict(kinds=[list(kind) for kind, _ in tup], ret=rk, hdr="one", names=alt[:k]),
                     mk_ir([(n, p) for n, (_, p) in zip(alt[:k], tup)], r, HEADERS[0][1]),
                 )
+    if wide and max_k >= 2:
+        yield from wide_space(kn_alpha)
+
+
+def wide_space(kn_alpha, ks=(4, 5, 8)):
+    """
+    Interfaces of 4, 5 and 8 parameters (the product over kn_alpha is out of reach there): (a) one departure from the uniform interface - every kind
+    of kn_alpha at every position among kn_alpha[0] neighbours; (b) every cyclic window of kn_alpha; (c) for 4 parameters all tuples over the
+    first three kinds.  With and without a return entry for (b).
+    """
+    if len(kn_alpha) < 3:
+        return
+    base = kn_alpha[0]
+
+    def one(tup, rk, r):
+        names = NAMES[: len(tup)]
+        return dict(kinds=[list(kind) for kind, _ in tup], ret=rk, hdr="one", names=names), mk_ir([(n, p) for n, (_, p) in zip(names, tup)], r, HEADERS[0][1])
+
+    for k in ks:
+        for pos in range(k):
+            for other in kn_alpha[1:]:
+                yield one([other if i == pos else base for i in range(k)], *RETURNS[0])
+        for start in range(len(kn_alpha)):
+            win = [kn_alpha[(start + i) % len(kn_alpha)] for i in range(k)]
+            yield one(win, *RETURNS[0])
+            yield one(win, *RETURNS[1])
+    for tup in itertools.product(kn_alpha[:3], repeat=4):
+        yield one(list(tup), *RETURNS[0])
 
 
 def defaults_form_suffix(ir):
